@@ -112,6 +112,7 @@ package ipfscluster
 //@   ensures !(pin.ReplicationFactorMin == -1 && pin.ReplicationFactorMax == -1) ==> pin.Allocations == old(pin.Allocations)
 //@   ensures [frame] forall q *api.Pin :: q != pin ==> *q == old(*q)
 //@   ensures [frame-fields] pin.Cid == old(pin.Cid) && pin.Type == old(pin.Type) && pin.MaxDepth == old(pin.MaxDepth) && pin.Reference == old(pin.Reference) && pin.Name == old(pin.Name) && pin.Mode == old(pin.Mode) && pin.ExpireAt == old(pin.ExpireAt) && pin.Metadata == old(pin.Metadata) && pin.UserAllocations == old(pin.UserAllocations) && pin.Origins == old(pin.Origins) && pin.PinUpdate == old(pin.PinUpdate) && pin.ShardSize == old(pin.ShardSize)
+//@   ensures [other-pins-untouched] forall q *api.Pin :: q != pin ==> *q == old(*q)
 //@   modifies heap(api.Pin)
 
 //@ spec func pinTypeOK(pin *api.Pin) bool = (pin.Type == api.DataType && pin.Reference == nil) || (pin.Type == api.ShardType && pin.MaxDepth == 1) || (pin.Type == api.ClusterDAGType && pin.MaxDepth == 0 && pin.Reference != nil) || (pin.Type == api.MetaType && len(pin.Allocations) == 0 && pin.Reference != nil)
@@ -132,6 +133,7 @@ package ipfscluster
 //@   ensures !(pin.ReplicationFactorMin == -1 && pin.ReplicationFactorMax == -1) ==> pin.Allocations == old(pin.Allocations)
 //@   ensures [frame] forall q *api.Pin :: q != pin ==> *q == old(*q)
 //@   ensures [frame-fields] pin.Cid == old(pin.Cid) && pin.Type == old(pin.Type) && pin.MaxDepth == old(pin.MaxDepth) && pin.Reference == old(pin.Reference) && pin.Name == old(pin.Name) && pin.Mode == old(pin.Mode) && pin.ExpireAt == old(pin.ExpireAt) && pin.Metadata == old(pin.Metadata) && pin.UserAllocations == old(pin.UserAllocations) && pin.Origins == old(pin.Origins) && pin.PinUpdate == old(pin.PinUpdate) && pin.ShardSize == old(pin.ShardSize)
+//@   ensures [other-pins-untouched] forall q *api.Pin :: q != pin ==> *q == old(*q)
 //@   modifies heap(api.Pin)
 
 //@ func (rpcapi *ClusterRPCAPI) BlockAllocate
@@ -162,6 +164,7 @@ package ipfscluster
 //@   ensures [copies-source] nLogPin == old(nLogPin) + 1 ==> lastLogged.Cid == to && lastLogged.PinUpdate == from && lastLogged.Allocations == pinset[from].Allocations && lastLogged.ReplicationFactorMin == pinset[from].ReplicationFactorMin && lastLogged.ReplicationFactorMax == pinset[from].ReplicationFactorMax && lastLogged.Mode == pinset[from].Mode && lastLogged.MaxDepth == pinset[from].MaxDepth && lastLogged.Type == pinset[from].Type && lastLogged.Metadata == pinset[from].Metadata && lastLogged.ShardSize == pinset[from].ShardSize
 //@   ensures [name-override] nLogPin == old(nLogPin) + 1 ==> lastLogged.Name == ite(opts.Name != "", opts.Name, pinset[from].Name)
 //@   ensures [returns-logged] nLogPin == old(nLogPin) + 1 ==> res != nil && *res == lastLogged
+//@   ensures [existing-pins-untouched] forall q *api.Pin :: !fresh(q) ==> *q == old(*q)
 //@   modifies nLogPin, lastLogged, heap(api.Pin)
 
 // invariant of the shared pinset, established by every logged pin ([everywhere-empty] below): "-1 means everywhere: empty list"
@@ -185,6 +188,7 @@ package ipfscluster
 //@   ensures [entry-factors-valid] nLogPin == old(nLogPin) + 1 && !(isRedirect(old(pin.PinOptions), old(pin.Cid)) && len(blacklist) == 0) ==> validFactors(lastLogged.ReplicationFactorMin, lastLogged.ReplicationFactorMax)
 //@   ensures [everywhere-empty] nLogPin == old(nLogPin) + 1 && !(isRedirect(old(pin.PinOptions), old(pin.Cid)) && len(blacklist) == 0) && lastLogged.ReplicationFactorMin == -1 ==> len(lastLogged.Allocations) == 0
 //@   ensures [returns-logged] nLogPin == old(nLogPin) + 1 ==> res != nil && *res == lastLogged
+//@   ensures [other-pins-untouched] forall q *api.Pin :: q != pin && !fresh(q) ==> *q == old(*q)
 //@   modifies nLogPin, lastLogged, heap(api.Pin)
 
 //@ interface IPFSConnector.BlockGet(ctx, c)
@@ -308,13 +312,17 @@ package ipfscluster
 //@   modifies nothing
 
 // "re-allocated ... with all of the pin's options preserved ... no pin is ever removed by this process"
+// repinOffered: the pins handed to repinFromPeer so far (call-history ghost, kept by the callers)
+//@ ghost var repinOffered set[*api.Pin]
 //@ func (c *Cluster) repinFromPeer
 //@   property C10
 //@   requires pin != nil && pinsetInv()
+//@   records repinOffered = union(repinOffered, setof(pin))
 //@   ensures [never-unpins] nLogUnpin == old(nLogUnpin)
 //@   ensures [at-most-one-entry] nLogPin == old(nLogPin) || nLogPin == old(nLogPin) + 1
 //@   ensures [follower-does-nothing] c.config.FollowerMode ==> nLogPin == old(nLogPin)
 //@   ensures [same-cid-same-options] nLogPin == old(nLogPin) + 1 ==> lastLogged.Cid == old(pin.Cid) && optsAsRequested(c, lastLogged.PinOptions, old(pin.PinOptions))
+//@   ensures [other-pins-untouched] forall q *api.Pin :: q != pin && !fresh(q) ==> *q == old(*q)
 //@   modifies nLogPin, lastLogged, heap(api.Pin)
 
 //@ ghost var vacateN int
@@ -330,11 +338,14 @@ package ipfscluster
 //@   counts vacateN when true
 //@   ensures [never-unpins] nLogUnpin == old(nLogUnpin)
 //@   ensures [disabled-or-follower-does-nothing] c.config.DisableRepinning || c.config.FollowerMode ==> nLogPin == old(nLogPin)
+// "every pin it held ... is re-allocated": each listed pin allocated to p is offered for re-pinning, whatever happened to the ones before it
+//@   ensures [every-held-pin-offered] !c.config.DisableRepinning && err == nil ==> forall j int :: 0 <= j && j < len(list) && in(p, elems(list[j].Allocations)) ==> in(list[j], repinOffered)
 //@   loop 1 (range list)
 //@     invariant nLogUnpin == old(nLogUnpin) && (c.config.FollowerMode ==> nLogPin == old(nLogPin)) && pinsetInv()
+//@     invariant forall j int :: 0 <= j && j < idx1 && in(p, elems(list[j].Allocations)) ==> in(list[j], repinOffered)
 //@     invariant forall q *Cluster :: *q == old(*q)
 //@     invariant forall q *Config :: *q == old(*q)
-//@   modifies nLogPin, lastLogged, heap(api.Pin)
+//@   modifies nLogPin, lastLogged, repinOffered, heap(api.Pin)
 
 // "an expired pin is unpinned ... and an unexpired pin by none": the sweep only unpins pins whose expiry is before now and for which this peer is closest
 //@ func (c *Cluster) StateSync
@@ -355,7 +366,7 @@ package ipfscluster
 //@   at_call Consensus.RmPeer assert [vacated-before-removal] vacateN == old(vacateN) + 1 && p == pid
 //@   ensures [one-removal] rmPeerN == old(rmPeerN) + 1 && lastRmPeer == pid && vacateN == old(vacateN) + 1
 //@   ensures [never-unpins] nLogUnpin == old(nLogUnpin)
-//@   modifies vacateN, rmPeerN, lastRmPeer, nLogPin, lastLogged, heap(api.Pin)
+//@   modifies vacateN, rmPeerN, lastRmPeer, nLogPin, lastLogged, repinOffered, heap(api.Pin)
 
 // at most one peer considers itself closest: XOR with the CID's hash is injective, so two different peer hashes never tie
 //@ lemma xor_injective: forall a int, b int, k int :: a != b ==> (a ^ k) != (b ^ k)
